@@ -125,10 +125,11 @@ TraceDrain ==
          cut(c) == nxt[c].closed /\ ~Whole(nxt[c].wire, ws)
      IN IF skip \/ failed THEN Pass
         ELSE IF Judge(e, nxt) # "ok" THEN Reject(Judge(e, nxt))
-        ELSE IF \E c \in All : \/ ~cut(c) /\ (e.ids[c] # IdsOf(nxt[c].wire) \/ e.bad[c] # <<>> \/ e.left[c] # 0)
-                                  \* cut inside a unit: the readers may or may not report the unit under way
-                                  \/ cut(c) /\ e.ids[c] # IdsOf(nxt[c].wire)
-                                            /\ e.ids[c] # Append(IdsOf(nxt[c].wire), nxt[c].wire[Len(nxt[c].wire)].id)
+        ELSE IF \E c \in All :
+                  IF cut(c)     \* cut inside a unit: the readers may or may not report the unit under way
+                    THEN /\ e.ids[c] # IdsOf(nxt[c].wire)
+                         /\ e.ids[c] # Append(IdsOf(nxt[c].wire), nxt[c].wire[Len(nxt[c].wire)].id)
+                    ELSE e.ids[c] # IdsOf(nxt[c].wire) \/ e.bad[c] # <<>> \/ e.left[c] # 0
                THEN Reject("StreamProjection")
         ELSE Step(nxt)
 
